@@ -271,6 +271,9 @@ class SpecMixin(object):
         return h(n, cx)
       if name in self.world.macros and name not in cx.env:
         return self.expand_macro(name, [self.sv(a, cx) for a in n.args], cx)
+      if name in self.world.pure and name not in cx.env:
+        # a ghost (specification-only) function declared in the sidecar: uninterpreted, heap-independent
+        return self.pure_app(name, [self.sv(a, cx) for a in n.args], self.world.pure[name], cx)
     if isinstance(f, ast.Attribute):
       base = self.sv(f.value, cx)
       return self.spec_method(base, f.attr, [self.sv(a, cx) for a in n.args], cx, n)
